@@ -119,7 +119,7 @@ def run(ctx):
                 ok_div = True
                 v = _call(d.a[1][0], r"^utils::apply_factor$")
                 ok_val = v is not None and [str(x) for x in v.a[1]] == ["size_delta_usd", "factor"] and \
-                    H.peel(d.a[1][0]) is v and str(d.a[1][0]).endswith("?")
+                    H.peel(d.a[1][0]) is v and H.unwrap_success(d.a[1][0]) is not None
                 pr = _call(d.a[1][1], r"^Price::pick_price$")
                 ok_price = pr is not None and str(pr.a[1][0]) == "price" and str(pr.a[1][1]) == "false"
         ctx.ob("fee-formula:ceil-div", ok_div, "non-zero factor: result is checked_round_up_div(..) with None => Err: %s" % desc, where=f.where())
@@ -153,12 +153,12 @@ def run(ctx):
             rest, pay = parts.get("0"), parts.get("1")
         c = H.checked_op(rest) if rest is not None else None
         ok_sum = c is not None and c[0] == "checked" and c[1] == "sub" and str(c[2]) == "collateral_increment_amount" and str(c[3]) == str(pay) \
-            and str(rest).endswith("?")
+            and H.unwrap_success(rest) is not None
         ctx.ob("increase-split:sum", bool(ok_sum), "Ok((increment checked_sub payable, payable)) — the two parts add up to the increment: %s" % (
             "%s_%s(%s, <payable>)" % (c[0], c[1], c[2]) if c else str(rest)[:120]), where=ch.where())
         tf = _call(pay, r"^TryFrom::try_from$") if pay is not None else None
         cm = _call(tf.a[1][0], r"^order::compute_builder_fee_amount$") if tf is not None else None
-        ok_pay = cm is not None and [str(x) for x in cm.a[1]] == ["size_delta_usd", "builder_fee_factor", "collateral_price"] and str(pay).endswith("?")
+        ok_pay = cm is not None and [str(x) for x in cm.a[1]] == ["size_delta_usd", "builder_fee_factor", "collateral_price"] and H.unwrap_success(pay) is not None
         ctx.ob("increase-split:payable", ok_pay, "payable = try_from(compute_builder_fee_amount(size_delta_usd, builder_fee_factor, collateral_price)?)?", where=ch.where())
         if good:
             facts = A.cmp_facts(ch, oks[0][0])
@@ -183,7 +183,7 @@ def run(ctx):
                    re.match(r"^PositionExt::collateral_price\(position, prices\)$", str(c0.arg_expr(3))) is not None,
                    "charge is evaluated on the order's size delta, the builder factor and the collateral price", where=inc.where(c0.line))
             fee_o = (c0.bb, c0.short, ("1",))
-            ctx.ob("increase-split:consumed:recorded", _origin(rec[0].arg_expr(1)) == fee_o and str(rec[0].arg_expr(1)).endswith("?.1") and str(rec[0].arg_expr(0)) == "order",
+            ctx.ob("increase-split:consumed:recorded", _origin(rec[0].arg_expr(1)) == fee_o and rec[0].arg_expr(1).k == "field" and H.unwrap_success(rec[0].arg_expr(1).a[0]) is not None and str(rec[0].arg_expr(0)) == "order",
                    "record_builder_fee(order, charge(..)?.1)", where=inc.where(rec[0].line))
             fee_to = [c for c in tos if _origin(c.arg_expr(2)) == fee_o]
             ctx.ob("increase-split:consumed:escrowed", len(fee_to) == 1 and str(fee_to[0].arg_expr(1)) == "false",
@@ -197,7 +197,7 @@ def run(ctx):
                     nonzero = (lab[0] == "otherwise") == (" Ne " in cond)
                     if nonzero:
                         for must in (c0, rec[0]) + tuple(fee_to[:1]):
-                            ts = anchor.try_switch_of(inc, must)
+                            ts = H.success_edge(inc, must)
                             if ts is None or inc.can_reach(tgt, incs[0].bb, avoid_blocks=(ts[1],)):
                                 good = False
             ctx.ob("increase-split:must-pass", good, "with factor != 0, position.increase is reachable only through the Ok edges of charge, "
@@ -217,7 +217,7 @@ def run(ctx):
             tf_cs = tf.a[2] if tf is not None and len(tf.a) > 2 else None
             cl = _call(tf_cs.arg_expr(0), r"^order::clamp_builder_fee_amount$") if tf_cs is not None else None
             cl_cs = cl.a[2] if cl is not None and len(cl.a) > 2 else None
-            ctx.ob("decrease-clamped:recorded", cl_cs is not None and str(a).endswith("?"),
+            ctx.ob("decrease-clamped:recorded", cl_cs is not None and H.unwrap_success(a) is not None,
                    "record_builder_fee receives try_from(clamp_builder_fee_amount(..))?: %s" % str(a)[:70], where=dec.where(rec[0].line))
             if cl_cs is not None:
                 fee_e = cl_cs.arg_expr(0)
@@ -229,7 +229,7 @@ def run(ctx):
                 ctx.ob("decrease-clamped:bound-is-output", len(same) == 1 and len(tos) == 1 and _root_call(out, r"revertible_swap$") is not None,
                        "the clamp bound is the amount routed to the final-output bucket (transfer_out(false, <same value>)), the swap's output",
                        where=dec.where(cl_cs.line))
-                ok_c = cm_cs is not None and str(fee_e).endswith("?")
+                ok_c = cm_cs is not None and H.unwrap_success(fee_e) is not None
                 ctx.ob("decrease-clamped:fee", ok_c and str(cm_cs.arg_expr(1)) == "builder_fee_factor" and
                        re.match(r"^DecreasePositionReport::size_delta_usd\(", str(cm_cs.arg_expr(0))) is not None and
                        _call(cm_cs.arg_expr(2), r"^Oracle::get_primary_price$") is not None and
@@ -294,7 +294,7 @@ def _settle(ctx, prog):
     f = ctx.fn(r"gmsol_store::instructions::builder_fee::SettleBuilderFee::<'_>::invoke")
     if not f:
         return
-    order = r"AccountLoader::load\(ctx\.accounts\.order\)\?"
+    order = r"AccountLoader::load\(ctx\.accounts\.order\)!"   # canonical: any way of unwrapping the load
     rec_re = r"^(Order::builder_fee_amount\(" + order + r"\)|" + order + r"\.builder_fee_amount)$"
     esc_re = r"^ctx\.accounts\.escrow(\.[0-9a-z_]+)*\.amount$"
     tcs = f.calls_to(r"token::transfer_checked$|token_interface::transfer_checked$|token_2022::transfer_checked$")
@@ -312,14 +312,14 @@ def _settle(ctx, prog):
     ctx.ob("settle:route", roots.get("from") == ["escrow"] and roots.get("to") == ["claim_vault"] and roots.get("authority") == ["order"] and
            roots.get("mint") == ["final_output_token"],
            "transfer goes from the order's escrow to the builder's claim vault under the order's authority: %s" % roots, where=f.where(tc.line))
-    facts = A.cmp_facts(f, tc.bb)
+    facts = H.canon_facts(f, tc.bb)
     ctx.ob("settle:nonzero-only", A.has_fact(facts, "!=", rec_re, r"^0$"), "the transfer happens only when the recorded amount != 0", where=f.where(tc.line))
-    ok = any(o == "==" and re.search(r"Order::builder\(AccountLoader::load\(ctx\.accounts\.order\)\?\)", str(a) + str(b)) and
+    ok = any(o == "==" and re.search(r"Order::builder\(AccountLoader::load\(ctx\.accounts\.order\)!\)", str(a) + str(b)) and
              re.search(r"Key::key\(.*ctx\.accounts\.builder_user", str(a) + str(b)) for (o, a, b) in facts if b is not None)
     ctx.ob("settle:builder-identity", ok, "the transfer is under order.builder == builder_user.key()", where=f.where(tc.line))
     zs = [w for w in A.field_writes(f, r"builder_fee_amount$") if w["kind"] == "assign"]
-    ts = anchor.try_switch_of(f, tc)
-    okz = len(zs) == 1 and str(zs[0]["rv"]) == "0" and re.match(r"^AccountLoader::load_mut\(ctx\.accounts\.order\)\?\.builder_fee_amount$", zs[0]["path"]) is not None
+    ts = H.success_edge(f, tc)
+    okz = len(zs) == 1 and str(zs[0]["rv"]) == "0" and re.match(r"^AccountLoader::load_mut\(ctx\.accounts\.order\)(\?|@Ok\.0)\.builder_fee_amount$", zs[0]["path"]) is not None
     ctx.ob("settle:zeroed", okz, "the record of this order is set to 0 (%s)" % [(w["path"], str(w["rv"])) for w in zs], where=f.where())
     if okz and ts is not None:
         ctx.ob("settle:zero-after-transfer", f.dominates(ts[1], zs[0]["bb"]), "the zero store is dominated by the Ok edge of transfer_checked(..)?", where=f.where())
@@ -330,7 +330,7 @@ def _settle(ctx, prog):
     for bb, k, e in f.exits():
         if k != "ok":
             continue
-        fs = A.cmp_facts(f, bb)
+        fs = H.canon_facts(f, bb)
         if A.has_fact(fs, "==", rec_re, r"^0$"):
             n_early += 1
             good = good and not f.can_reach(tc.bb, bb) and not any(f.can_reach(z["bb"], bb) for z in zs)
